@@ -18,6 +18,7 @@ RULE = ('Hypothesis polygons: 0-8 caps with unit vectors (uniform, axis-aligned,
         '(subsets, permutations, repeats), exact duplicate / negated caps, add / allow_doubles / allow_neg_doubles.  Oracle: the '
         'cap inequality 1 - x.p <= cm (complement for cm<0) in float64, AND over selected caps, first containing polygon.  '
         'Non-trivial = polygon with >=2 used caps incl. a negative one and points both inside and outside; index list != range(ncaps).')
+RULE += '  Also: cm = 0 caps, polygons with 33-70 caps and numpy index arrays for set_use_caps, windows of 33000 / 70000 polygons.'
 ASSUMPTIONS = ['points whose 1 - x.p is within 1e-12 (+1e-12 relative) of |cm| are accepted either way, except exact cap centres',
                '|cm| <= 2; cap vectors are unit vectors to 1e-15',
                '.ply files and the window reader carry no use-mask: cross-format agreement there is asserted for all-caps masks',
